@@ -31,7 +31,8 @@ def oracle(line: str, obs: Obs):
                     ce_count[t[1]] = ce_count.get(t[1], 0) + 1
                     # so is a CEA claiming another identity than the peer that was dialled
                     dn = dialled_name.get(f"c{t[1]}")
-                    if not m["R"] and dn and m["keys"].get("oh") not in (None, dn):
+                    oh = m["keys"].get("oh")
+                    if not m["R"] and dn and oh is not None and oh.lower() != dn.lower():
                         return fails
             if any(v > 1 for v in ce_count.values()):
                 return fails
